@@ -32,6 +32,28 @@ theorem table?_setTable (w : World) (t t' : Table) (h : w.table? t'.name = some 
   unfold World.table? World.setTable at *
   exact find?_setTable _ _ _ h
 
+/-- writing a table back leaves every other table alone -/
+theorem table?_setTable_ne (w : World) (t' : Table) (name : String) (h : name ≠ t'.name) :
+    (w.setTable t').table? name = w.table? name := by
+  unfold World.table? World.setTable
+  induction w.tables with
+  | nil => rfl
+  | cons x xs ih =>
+    simp only [List.map_cons, List.find?_cons]
+    cases hx : (x.name == t'.name) with
+    | true =>
+      have e : x.name = t'.name := by simpa using hx
+      have h1 : (t'.name == name) = false := by simpa using fun e' => h e'.symm
+      have h2 : (x.name == name) = false := by rw [e]; exact h1
+      simp only [if_true, h1, h2]
+      exact ih
+    | false =>
+      have e : (if false = true then t' else x) = x := by simp
+      simp only [e]
+      cases x.name == name
+      · exact ih
+      · rfl
+
 theorem setTable_setTable (w : World) (t1 t2 : Table) (h : t1.name = t2.name) :
     (w.setTable t1).setTable t2 = w.setTable t2 := by
   unfold World.setTable
